@@ -33,10 +33,11 @@ RULE = ("pairwise covering array over potential kind (Potential from Atoms, Pote
         "FrozenPhonons with/without ensemble mean, AtomsEnsemble) x exit_planes (int 1/2/3, explicit tuple ending at the "
         "last slice, explicit tuple starting with the entrance plane -1, explicit tuple not ending at the last slice) x "
         "builder x detector set x evaluation mode x slice-thickness sequence (uniform / explicit non-uniform) x number of "
-        "slices 2..6 x grid parity, plus seeded random rows; continuous parameters are seeded. Every exit plane of every "
+        "slices 2..6 x grid parity, plus seeded random rows and 16 fixed boundary rows (single exit plane before the last "
+        "slice with ensembles of size 1 and 2 in both modes; int exit_planes >= number of slices); continuous parameters are seeded. Every exit plane of every "
         "case is checked against its own truncated simulation. Non-trivial: more than one exit plane and non-zero arrays. "
         "Distinct = distinct case dict.")
-BOUNDS = {"axes": _AXES, "atoms": "<= 5", "configurations": "2..3",
+BOUNDS = {"axes": _AXES, "atoms": "<= 5", "configurations": "1..3",
           "rows": {"quick": "covering array + 15 random rows", "thorough": "3 covering arrays + 3 x 150 random rows"}}
 EXHAUSTIVE = False
 ASSUMPTIONS = [
@@ -92,8 +93,38 @@ def _finish(row, seed, i):
     return c
 
 
+def _edge_rows():
+    """Boundary rows kept in every tier: a single exit plane that is not the last slice, for ensembles of size 1 and 2,
+    both evaluation modes (the shortcut path of multislice_and_detect without preallocated measurements), and the
+    degenerate int exit_planes >= number of slices."""
+    rows = []
+    for kind in ("fp_nomean", "ens_nomean", "fp_mean", "atoms"):
+        for lazy in (True, False):
+            for nconf in (1, 2):
+                if kind == "atoms" and nconf == 2:
+                    continue
+                rows.append(dict(kind=kind, exit_planes="tuple_open", builder="planewave" if nconf == 1 else "probe_point",
+                                 detectors="waves" if lazy else "pixelated", lazy=lazy, thickness="uniform",
+                                 nslices=3 + nconf, grid="16x16", _nconf=nconf, _planes=[1]))
+    rows.append(dict(kind="fp_nomean", exit_planes="3", builder="planewave", detectors="waves", lazy=True,
+                     thickness="explicit", nslices=2, grid="15x18"))
+    rows.append(dict(kind="atoms", exit_planes="3", builder="probe_line", detectors="annular", lazy=False,
+                     thickness="explicit", nslices=3, grid="15x18"))
+    return rows
+
+
 def cases(tier, seed):
     reps = 1 if tier == "quick" else 3
+    i = 0
+    for row in _edge_rows():
+        extra = {k: row.pop(k) for k in list(row) if k.startswith("_")}
+        c = _finish(row, seed, 50_000 + i)
+        if "_nconf" in extra:
+            c["nconf"] = extra["_nconf"]
+        if "_planes" in extra:
+            c["planes"] = extra["_planes"]
+        i += 1
+        yield c
     i = 0
     for s in range(reps):
         for row in covering(_AXES, seed=707 + 1000 * seed + s, extra_random=15 if tier == "quick" else 150):
